@@ -65,7 +65,7 @@ def _check_path(ctx, mon, op, path, start, target, E, wf, dref, scale):
             ctx.violation(mon, op, "not_along_edges", "consecutive path vertices are not joined by a mesh edge", a=a, b=b, path=p[:20])
             return None
         w += wf(a, b)
-    tol = 1e-9 * max(1.0, scale)
+    tol = 1e-9 * max(scale, abs(dref))  # relative to the weights at hand (meshes come in tiny and huge units)
     if abs(w - dref) > tol:
         ctx.violation(mon, op, "not_minimum_weight", "path weight is not the minimum over all edge paths", weight=w, minimum=dref, path=p[:30])
         return None
@@ -79,6 +79,14 @@ def run_case(desc, ctx):
     n = len(V)
     mode = desc["weights"]
     V = np.array(V, dtype=float)
+    unit = rng.choice([1.0, 1.0, 1.0, 1e-9, 1e-6, 1e5])
+    if unit != 1.0:
+        # the same mesh in very small / large units (a fresh object built from the rescaled coordinates)
+        ctx.cls("units:%g" % unit)
+        V = V * unit
+        for i in range(n):
+            m.vertices[i] = M.Vec(V[i].copy())
+    wunit = rng.choice([1.0, 1.0, 1e-12, 1e8])
     # history: the mesh was measured earlier (persistent edge lengths, default attribute name) and then deformed non-uniformly in place;
     # Euclidean weights must be those of the geometry at the time of the query
     if rng.random() < 0.35:
@@ -100,10 +108,10 @@ def run_case(desc, ctx):
     def wf_custom(a, b):
         r = random.Random((min(a, b) * 1000003 + max(a, b)) ^ salt)
         if mode == "dict_int":
-            return float(r.randint(1, 3))
+            return float(r.randint(1, 3)) * wunit
         if mode == "dict_zero":
-            return 0.0 if r.random() < 0.3 else r.uniform(0.1, 2.0)
-        return r.uniform(0.01, 5.0)
+            return 0.0 if r.random() < 0.3 else r.uniform(0.1, 2.0) * wunit
+        return r.uniform(0.01, 5.0) * wunit
     if mode == "one":
         wf = lambda a, b: 1.0  # noqa
         warg = "one"
@@ -198,7 +206,7 @@ def run_case(desc, ctx):
             dmin = min(dref[s] for s in S)
             if ind not in S:
                 ctx.violation("set", "vertex_set", "index_not_in_set", "returned index is not a member of the target set", index=ind, targets=S, kind=kset)
-            elif abs(dref[ind] - dmin) > 1e-9 * max(1.0, scale):
+            elif abs(dref[ind] - dmin) > 1e-9 * max(scale, abs(dmin)):
                 ctx.violation("set", "vertex_set", "not_nearest_member", "returned member is not a nearest member of the set", index=ind, d=dref[ind], dmin=dmin)
             else:
                 _check_path(ctx, "set", "vertex_set_path", path, start, ind, E, wf, dmin, scale)
